@@ -207,8 +207,8 @@ def gen_case(rng, tier_big=True, force=None):
             # predicted length only steers the generator (offset classes); the checks never use it
             if off == 0:
                 cur = n if verb == "STOR" else (cur or 0) + n
-            elif cur is None and backend != "memory":
-                cur = None
+            elif cur is None:
+                cur = None  # `r+b` on a missing file fails on every shipped backend
             elif n:
                 cur = max(cur or 0, off + n)
             else:
@@ -433,9 +433,13 @@ async def _run_case(loop, case):
         world.spy.enabled = True
         world.spy.delay = case["spy_delay"]
         path = "/" + "/".join(fp)
+        closed_data = set()
         for i, op in enumerate(case["ops"]):
             o = {"pre": read_target(world, case)}
             i0 = len(events)
+            # data connections that exist before this transfer starts (e.g. one parked by a refused RETR and
+            # dropped by the next PASV/EPSV) are not this transfer's: their close is not an event of its worker
+            closed_data |= set(server_data)
             try:
                 await asyncio.wait_for(_do_op(a, op, path, o), 36000)
             except aioftp.StatusCodeError as e:
@@ -456,7 +460,8 @@ async def _run_case(loop, case):
             await asyncio.sleep(0.5)
             await loop.settle()
             window = events[i0:]
-            o["trace"], o["order"] = trace_of(window, server_data)
+            o["trace"], o["order"] = trace_of(window, server_data, closed_data)
+            closed_data |= {e[2] for e in window if len(e) > 2 and e[1] == "close" and e[2] in server_data}
             o["writes"] = [e[2] for e in window if e[0] == "spy" and e[1] == "write"]
             o["reads"] = [e[2][0] if e[2] else -1 for e in window if e[0] == "spy" and e[1] == "read"]
             o["blocks"] = [e[3] for e in window if len(e) > 3 and e[1] == "write" and e[2] in server_data]
@@ -543,8 +548,9 @@ async def second_session(b, path, fp, o, rng):
             o["b_err"] = type(e).__name__
 
 
-def trace_of(window, server_data):
-    """observable event tokens of one transfer + the order facts the oracle needs"""
+def trace_of(window, server_data, closed_before=frozenset()):
+    """observable event tokens of one transfer + the order facts the oracle needs; `closed_before`: data
+    transports already seen closed in an earlier transfer (a second close() of those is not an event of this one)"""
     toks = []
     opened = False
     idx226 = None
@@ -580,7 +586,8 @@ def trace_of(window, server_data):
                 if e[2] == "226" and idx226 is None:
                     idx226 = i
         elif len(e) > 2 and e[1] == "close" and e[2] in server_data:
-            toks.append("X")
+            if e[2] not in closed_before:
+                toks.append("X")
         elif len(e) > 3 and e[1] == "write" and e[2] in server_data:
             toks.append("w%d" % e[3])
     toks = ["%s%d" % (t[0], t[1]) if isinstance(t, list) else t for t in toks]
@@ -725,6 +732,8 @@ def model_lines(case, obs):
             lines.append(("xfer stor %s %s %s %d %d %s %s" % (be, opt_bytes(o["pre"]), op["verb"].lower(), op["offset"], case["bs"], payload, enc_nats(o["writes"])), "stor", i))
             if len(payload) + len(o["pre"] or b"") * 2 <= 6000:
                 lines.append(("xfer spec %s %s %d %s" % (opt_bytes(o["pre"]), op["verb"].lower(), op["offset"], payload), "spec", i))
+        elif o["pre"] is None and o["status"] == "550":
+            continue  # RETR of a missing file is refused by the handler's guard (C05): no worker, no trace to compare
         else:
             sizes = o.get("client_sizes")
             n = op["read"] if op["api"] == "iter" else 10**9
